@@ -2,10 +2,11 @@
 (* Constants that a cfg file cannot express.  Window coordinates: the data grid has spacing *)
 (* 24 (data range 0..96), estimates are multiples of 12 (on and between grid points, at the *)
 (* edges, outside the data on either side), so that width/2 and the separation factors      *)
-(* 1/3, 1/4, 1/2 of every estimate distance are integers.                                   *)
+(* 1/3, 1/4, 1/2, 3/4 of every estimate distance are integers (3/4: beyond one half, where  *)
+(* windows that do not overlap still have to be cut back).                                  *)
 EXTENDS FitPeaks
-MC_Factors == {<<1, 3>>, <<1, 4>>, <<1, 2>>}
-MC_FactorsQuick == {<<1, 3>>, <<1, 2>>}
+MC_Factors == {<<1, 3>>, <<1, 4>>, <<1, 2>>, <<3, 4>>}
+MC_FactorsQuick == {<<1, 3>>, <<1, 2>>, <<3, 4>>}
 MC_EstVals == {-36, -12, 0, 12, 36, 48, 84, 96, 108, 132}
 MC_EstValsQuick == {-36, -12, 0, 36, 48, 96, 108, 132}
 MC_Widths == {2, 12, 24, 26, 50, 100, 400}       \* below the grid spacing ... beyond the range
